@@ -117,6 +117,52 @@ def _range_env(fn, at):
     return env
 
 
+def _search_form(tu, fn, ev, algo):
+    """(ok, why) for `find_if[_not](begin, end, pred) ==/!= begin|end`, or None when the shape is another one"""
+    import itertools
+    it, e = range_vars(fn)
+    a = ev.get("args") or []
+    if len(a) != 3 or it is None or e is None:
+        return None
+    if ("['var', %d," % it) not in str(a[0]) or ("['var', %d," % e) not in str(a[1]):
+        return None
+    lams = lambdas_in(tu, fn)
+    if not lams or not all(elem_predicate_ok(l, True) for l in lams):
+        return False, "the element predicate must be param_matches(comparator, std::ref(element))"
+    rets = [x.get("x") for b, x in fn.events() if x["e"] == "return" and x.get("x") is not None]
+    if len(rets) != 1:
+        return None
+    r, pol = cond_shape(rets[0])
+    if not (isinstance(r, list) and ((r[0] == "opcall" and r[3] in ("==", "!=")) or (r[0] == "b" and r[1] in ("==", "!=")))):
+        return None
+    op = r[3] if r[0] == "opcall" else r[1]
+    args = r[4] if r[0] == "opcall" else r[2:4]
+    sa = [str(x) for x in args]
+    res_side = [i for i, x in enumerate(sa) if "find_if" in x or "__ret" in x]
+    if len(res_side) != 1:
+        return None
+    other = sa[1 - res_side[0]]
+    if ("['var', %d," % e) in other:
+        against = "end"
+    elif ("['var', %d," % it) in other:
+        against = "begin"
+    else:
+        return None
+    negsearch = qe(ev) == "std::find_if_not"
+    spec = {"std::all_of": all, "std::any_of": any, "std::none_of": lambda v: not any(v)}[algo]
+    for n in range(0, 4):
+        for v in itertools.product((True, False), repeat=n):
+            pos = next((i for i, x in enumerate(v) if (not x if negsearch else x)), n)
+            eq = (pos == (n if against == "end" else 0))
+            val = eq if op == "==" else not eq
+            if not pol:
+                val = not val
+            if val != spec(v):
+                return False, "with element verdicts %s the checker answers %s (%s compared with %s)" % (
+                    list(v), val, qe(ev).split("::")[1], against)
+    return True, ""
+
+
 def c11a(ctx, tu):
     n = 0
     for name, (algo, nargs) in ALGO.items():
@@ -125,6 +171,19 @@ def c11a(ctx, tu):
             calls = [e for b, e in fn.events() if e["e"] == "call" and qe(e).startswith("std::") and
                      qe(e) in ("std::all_of", "std::none_of", "std::any_of", "std::equal", "std::mismatch", "std::find_if",
                                "std::is_permutation", "std::includes", "std::search")]
+            # search form: find_if / find_if_not over the whole range, its result compared with begin or end.  What
+            # that computes is decided for every vector of element verdicts up to length 3 against the quantifier.
+            finds = [e for b, e in fn.events() if e["e"] == "call" and qe(e) in ("std::find_if", "std::find_if_not")]
+            if algo in ("std::all_of", "std::none_of", "std::any_of") and len(finds) == 1 and len(calls) <= 1 and \
+                    (not calls or qe(calls[0]) == "std::find_if"):
+                verdict = _search_form(tu, fn, finds[0], algo)
+                if verdict is not None:
+                    ok, why = verdict
+                    ctx.ob("C11.a", name, ok, pattern=fn.pat, unit=tu.name, inst=fn.q, detail="" if ok else why)
+                    continue
+                ctx.ob("C11.a", name, None, pattern=fn.pat, unit=tu.name, inst=fn.q,
+                       detail="a search over the range whose use this rule does not recognise")
+                continue
             if not calls and algo in LOOP_SPEC and cfg.loops(fn):
                 c11a_loop(ctx, tu, name, fn, algo)
                 continue
